@@ -1097,6 +1097,39 @@ def c14(rec):
         out.append({"status": "_event", "event": {"kind": "sample", "what": "tensor_sample", "sig": sig + " seed%d" % seed,
                                                   "f": rec["f"], "vars": rec["vars"], "sample_inputs": rec["sample_inputs"],
                                                   "result": a1, "lhs": rec["f"]}})
+    # the MonteCarlo interpretation of Integrate(f, g, vars): g is a position code over the
+    # sampled variables; TLC accepts mass(f) * g(x) for any support point x per particle
+    from funsor.integrate import Integrate
+    from funsor.montecarlo import MonteCarlo
+    from funsor.terms import Variable
+    sizes = [d["dt"] for _, d in rec["vars"]]
+    n = int(np.prod(sizes))
+    g_ast = {"c": "Ten", "ins": [[nm, d["dt"]] for nm, d in rec["vars"]], "dt": 0, "sh": [],
+             "data": [["R", k + 1, 1] for k in range(n)]}
+    g = fbuild.Builder().build(g_ast)
+    vvars = frozenset(Variable(nm, fbuild.dom_of(d)) for nm, d in rec["vars"])
+    for seed in (0, 1):
+        try:
+            np.random.seed(seed)
+            with MonteCarlo(**sins):
+                r1 = Integrate(f, g, vvars)
+            np.random.seed(seed)
+            with MonteCarlo(**sins):
+                r2 = Integrate(f, g, vvars)
+            a1, a2 = fast.to_ast(r1), fast.to_ast(r2)
+        except fast.Unrepresentable as ex:
+            out.append(_verdict("C14", "skipped_unrepresentable", "mc:" + str(ex)[:60], sig=sig))
+            continue
+        except Exception as e:  # noqa
+            out.append(_verdict("C14", "declined_error", "montecarlo:" + type(e).__name__, str(e)[:100], sig=sig))
+            continue
+        if a1 != a2:
+            out.append(_verdict("C14", "mismatch", "montecarlo_not_deterministic", {"seed": seed}, sig=sig))
+        else:
+            out.append(_verdict("C14", "agree", sig=sig))
+        out.append({"status": "_event", "event": {"kind": "mc", "what": "montecarlo_integrate", "sig": sig + " mcseed%d" % seed,
+                                                  "f": rec["f"], "g": g_ast, "vars": rec["vars"],
+                                                  "sample_inputs": rec["sample_inputs"], "result": a1, "lhs": rec["f"]}})
     return out
 
 
